@@ -192,7 +192,13 @@ class time_zone {
   template <typename D>
   bool prev_transition(const time_point<D>& tp,
                        civil_transition* trans) const {
-    return prev_transition(detail::split_seconds(tp).first, trans);
+    // A transition at the whole second that a sub-second tp truncates
+    // to is strictly before tp, so round up instead of down.
+    const auto ss = detail::split_seconds(tp);
+    if (ss.second > D::zero() && ss.first < time_point<seconds>::max()) {
+      return prev_transition(ss.first + seconds(1), trans);
+    }
+    return prev_transition(ss.first, trans);
   }
 
   // version() and description() provide additional information about the
